@@ -605,6 +605,45 @@ pub fn main(a: &vcommon::Args) {
             println!("runs={} events={}", out.run, out.events);
             out.finish();
         }
+        // data written by a side as soon as ITS handshake is complete, while the other side has not yet read the last
+        // handshake message: the last handshake message and the first data arrive in one chunk (or split anywhere)
+        "early" => {
+            let proto = a.get(1);
+            let mut out = Out::create(a.get(2));
+            for n in [1u64, 15, 100, 300, 70_000] {
+                // everything at once, then every split point of (last handshake message + first frames) up to 120 bytes
+                let mut cuts: Vec<u64> = vec![0];
+                cuts.extend(1..=if n < 1000 { 120 } else { 8 });
+                for cut in cuts {
+                    for second in [false, true] {
+                        // m1 to the responder, m2 to the initiator: the initiator is up and has m3 staged
+                        let mut ops = vec![json!({"a": "dl", "d": 0, "n": 0}), json!({"a": "dl", "d": 1, "n": 0})];
+                        // the initiator writes at once; its data is staged right behind m3
+                        ops.push(json!({"a": "wall", "d": 0, "n": n}));
+                        ops.push(json!({"a": "fl", "d": 0}));
+                        if second {
+                            ops.push(json!({"a": "wall", "d": 0, "n": 7}));
+                            ops.push(json!({"a": "fl", "d": 0}));
+                        }
+                        // m3 + data reach the responder in one chunk, or split at `cut`
+                        if cut > 0 {
+                            ops.push(json!({"a": "dl", "d": 0, "n": cut}));
+                        }
+                        ops.push(json!({"a": "dl", "d": 0, "n": 0}));
+                        // the responder answers
+                        ops.push(json!({"a": "wall", "d": 1, "n": 3}));
+                        ops.push(json!({"a": "fl", "d": 1}));
+                        ops.push(json!({"a": "dl", "d": 1, "n": 0}));
+                        ops.push(json!({"a": "r", "d": 0, "n": 64}));
+                        ops.push(json!({"a": "r", "d": 1, "n": 64}));
+                        ops.push(json!({"a": "drain", "close": cut % 2 == 1}));
+                        emit(&mut out, json!({"proto": proto, "auto_dl": 0, "ops": ops, "rbuf": 4096}));
+                    }
+                }
+            }
+            println!("runs={} events={}", out.run, out.events);
+            out.finish();
+        }
         m => panic!("stream mode {m}"),
     }
 }
